@@ -147,6 +147,11 @@ def eval_case(cg, start, n, inject):
                   "fail": {"on": False, "s": 1, "m": 1, "r": 0}})
     case = {"id": "%s@%s" % (cg["id"], start), "G": G, "sp": sp[start], "n": n, "inject": inject, "P": P,
             "inl": list(cg.get("inline", []))}
+    if cg.get("prec"):
+        pr = cg["prec"]
+        n = len(G["prods"])
+        case["prec"] = {"nt": pr["nt"], "lev": [pr["lev"].get(str(i), -1) for i in range(n)],
+                        "assoc": [pr["assoc"].get(str(i), "") for i in range(n)]}
     if cg.get("cfg"):
         c = cg["cfg"]
         case["feats"] = list(cg.get("features", []))
@@ -259,7 +264,12 @@ def render(cg, algo="lane", backend="table"):
         ty = {"V": ": V", "unit": ": ()", "infer": ""}[kind]
         body = []
         for p in alts:
-            pre = "    " + cfg_attrs(cfg["alt"].get(str(cg["prods"].index(p)), []))
+            pi = str(cg["prods"].index(p))
+            pre = "    " + cfg_attrs(cfg["alt"].get(pi, []))
+            if cg.get("prec") and pi in cg["prec"]["lev"]:
+                pre += '#[precedence(level="%d")] ' % cg["prec"]["lev"][pi]
+            if cg.get("prec") and pi in cg["prec"]["assoc"]:
+                pre += '#[assoc(side="%s")] ' % cg["prec"]["assoc"][pi]
             if p["form"] == "none" and not p["syms"]:
                 body.append(pre + "=> (),")  # an empty alternative needs `=>`; `()` is "no code"
             else:
@@ -323,3 +333,87 @@ def inlinable(cg):
         return False
 
     return [nt for nt in cg["nts"] if nt not in cg["starts"] and not reaches(nt, nt, set())]
+
+
+def prec_grammar(rng, idx, helper=False):
+    """one annotated operator nonterminal E (atoms, prefix, postfix, binary, ternary alternatives over
+    random levels and associativities, with inherited levels / associativities) under a start symbol S"""
+    ops = ["b", "c", "d", "e"]
+    nlev = rng.choice([2, 2, 3, 3, 4])
+    levels = sorted(rng.sample([0, 1, 2, 3, 5, 8, 13, 40], nlev))
+    alts = []   # (level, assoc wanted, rhs)
+    alts.append((levels[0], "all", ["a"]))
+    if rng.random() < 0.3:
+        alts.append((levels[0], "all", [rng.choice(ops), "E", rng.choice(ops)] if rng.random() < 0.5 else ["f"]))
+    if rng.random() < 0.25:
+        alts.append((levels[0], "all", [rng.choice(ops[2:]), "E"]))   # prefix operator on the tightest level
+    used = set()
+    for lv in levels[1:]:
+        for _ in range(rng.choice([1, 1, 2])):
+            shape = rng.random()
+            op = rng.choice([o for o in ops if o not in used] or ops)
+            used.add(op)
+            if shape < 0.55:
+                alts.append((lv, rng.choice(["left", "right", "none", "left", "all"]), ["E", op, "E"]))
+            elif shape < 0.7:
+                alts.append((lv, rng.choice(["all", "right", "none"]), [op, "E"]))
+            elif shape < 0.82:
+                alts.append((lv, rng.choice(["all", "left", "none"]), ["E", op]))
+            else:
+                op2 = rng.choice(ops)
+                alts.append((lv, rng.choice(["left", "right", "none"]), ["E", op, "E", op2, "E"]))
+    # order: mostly by level, sometimes interleaved
+    first = alts[0]
+    rest = alts[1:]
+    if rng.random() < 0.35:
+        rng.shuffle(rest)
+    alts = [first] + rest
+    ts = sorted({x for _, _, r in alts for x in r if x != "E"})
+    prods = []
+    prec = {"nt": "E", "lev": {}, "assoc": {}}
+    start_forms = rng.random()
+    if start_forms < 0.6:
+        prods.append({"lhs": "S", "rhs": ["E"]})
+    else:
+        t = rng.choice(ts)
+        prods.append({"lhs": "S", "rhs": ["E"]})
+        prods.append({"lhs": "S", "rhs": [t, "E", t] if rng.random() < 0.5 else ["S", "g", "E"]})
+        ts = sorted(set(ts) | {"g"}) if "g" in prods[-1]["rhs"] else ts
+    nts = ["S", "E"]
+    if helper:   # another nonterminal next to the annotated one (used by the renaming check)
+        prods.append({"lhs": "S", "rhs": ["H", "E"]})
+        prods.append({"lhs": "H", "rhs": ["h"]})
+        ts = sorted(set(ts) | {"h"})
+        nts = ["S", "H", "E"]
+    base = len(prods)
+    prev_lv, prev_as = None, None
+    for j, (lv, a, rhs) in enumerate(alts):
+        k = str(base + j)
+        write_prec = (lv != prev_lv) or rng.random() < 0.3
+        if write_prec:
+            prec["lev"][k] = lv
+            inherited = "all"
+        else:
+            inherited = prev_as
+        if a != inherited or (a != "all" and rng.random() < 0.3) or (a == "all" and lv != levels[0] and rng.random() < 0.1):
+            if not (lv == levels[0]):      # no associativity may be written on the tightest level
+                prec["assoc"][k] = a
+            else:
+                a = inherited if inherited in ("all",) else "all"
+        prev_lv, prev_as = lv, (prec["assoc"].get(k) or inherited)
+        prods.append({"lhs": "E", "rhs": rhs})
+    g = {"id": "p%04d" % idx, "ts": ts, "nts": nts, "starts": ["S"], "prods": prods}
+    cg = annotate(g, rng, p_loc=0.0, p_fallible=0.0)
+    # all alternatives of E and S are user actions over named symbols; E occurrences always handed
+    for p in cg["prods"]:
+        p["form"] = "user"
+        p["fail"] = {"on": False}
+        for s_ in p["syms"]:
+            if s_["k"] == "sym" and p["rhs"][s_["i"] - 1] in ("E", "S"):
+                s_["sel"] = True
+    cg["kinds"] = {nt: "V" for nt in nts}
+    cg["prec"] = prec
+    cg["levels"] = levels
+    cg["no_machine"] = True
+    cg["bound"] = (5, 7)   # operator sequences: a op a op a needs five tokens
+    return cg
